@@ -32,7 +32,7 @@ const bseqPrelude = `
 
 // Query assembles the SMT-LIB text of an obligation.
 func (o *Obligation) Query(models bool) string {
-	if o.Raw != "" {
+	if o.Raw != "" || o.Func == nil {
 		return o.Raw
 	}
 	fv := o.Func
